@@ -41,6 +41,20 @@ Print Assumptions C11_forced_plssdesc.
 
 (* fallback: every chunk yields at least one tract component -- when the marker walk stages
    nothing, the copy_all stand-in stages the whole chunk (exactly once) *)
+(* DEDUCED fallback: whenever no Twp/Rge, or no section word, can be found in the (stripped)
+   preprocessed text, the deduced layout is copy_all and the result is exactly one tract whose
+   description is the entire preprocessed text -- any text, defaults, colon mode, segment, sec_within *)
+Theorem C11_deduced : forall text d ocr rc segment sec_within ts p ptext fixed,
+  plss_preprocess text d ocr = Ok (ptext, fixed) ->
+  (search twprge_regex twprge_regex_ng (strip ptext) = None \/ search no_num_sec_regex no_num_sec_regex_ng (strip ptext) = None) ->
+  plss_parser text None d ocr None rc segment sec_within ts = Ok p ->
+  po_layout p = COPY_ALL /\ exists t, po_tracts p = [t] /\ to_desc t = po_text p.
+Proof.
+  intros text d ocr rc segment sec_within ts p ptext fixed Epp [H|H] Hp;
+    (eapply deduced_copy_all; [exact Epp | | exact Hp]); [apply deduce_copy_all_no_twprge | apply deduce_copy_all_no_sec]; exact H.
+Qed.
+Print Assumptions C11_deduced.
+
 Theorem C11_fallback_component : forall chunk layout px c,
   parse_chunk chunk layout px = Ok c -> cp_tc c <> [].
 Proof. exact parse_chunk_nonempty. Qed.
